@@ -2,45 +2,50 @@
    Statements only; proofs in proofs/TxValidProofs.v.  The model
    (model/TxValid.v) is Transaction::validate (all transaction types, including
    the BlockStake branch and the Bound / NFT branch) + the pool's validity gate +
-   the final sweep of Block::validate, as they stand at /repo HEAD.
+   the final sweep of Block::validate, as they stand at /repo HEAD (9007b23).
    [sl_spendable] is "the ledger holds this output as spendable" (C03 ties the
-   ledger to the replay of the longest chain), [t_sig_ok] is the real signature
-   check against from[0]'s key, [sl_unlocked] the real Blockchain::is_slip_unlocked.
+   ledger to the replay of the longest chain; the harness also tests it against the
+   block history), [t_sig_ok] is the real signature check against the key
+   Transaction::signer_public_key names, [sl_unlocked] the real
+   Blockchain::is_slip_unlocked.
 
    The property at full strength,
 
      forall e t, user_type t -> tx_validate e t = Valid -> SpendOK e t          (FULL)
 
-   is FALSE for the code as it is: Bound-typed transactions are exempt from the
-   ownership check (C01_user_tx_spendok_refuted and the three witnesses below,
-   each reproduced on the real pool and inside an attacker block by harness c01).
-   It is proved for every user transaction outside the class Known_bound_foreign,
-   and for Bound transactions everything validation does establish is stated. *)
+   now HOLDS (C01_valid_user_tx_spendok): the exemption of Bound-typed transactions
+   from the ownership check, which refuted it, was repaired by /repo c1271fb; the
+   witnesses of that and of the other repaired defects are kept below as regression
+   examples.  One listed finding remains: the signature does not say WHICH outputs
+   are spent (C01_signature_does_not_bind_inputs, C01_replay_refuted). *)
 From Saito Require Import Base TxValid TxValidProofs.
 
 (* ------------------------------------------------------------------ positive *)
 
-(* every value-carrying input of an accepted user transaction that is not
-   Bound-typed -- Normal, GoldenTicket, Vip and, since the staking branch falls
-   through to the common checks, BlockStake -- is spendable in the ledger,
-   is still inside the retention window (block_id + genesis_period >= latest + 1,
-   [so_window]: enforced by Transaction::validate itself since /repo bb88717),
-   belongs to the key whose signature authorises the transaction, is referenced
-   once, and the transaction does not pay out more than it consumes (sums in
-   unbounded N; inputs are real ledger amounts, far below 2^64) *)
+(* (FULL) every accepted user transaction -- Normal, GoldenTicket, Vip, BlockStake and Bound
+   (NFT) alike: its signature verifies against the signing key; every input with an amount
+   (Bound slips included) is spendable in the ledger and named once; every value-carrying
+   (non-Bound) input belongs to the signing key and is still inside the retention window
+   (block_id + genesis_period >= latest + 1); the transaction does not pay out more than it
+   consumes (sums in unbounded N, Bound slips counting 0; inputs are real ledger amounts, far
+   below 2^64) *)
 Theorem C01_valid_user_tx_spendok : forall e t,
-  coin_type t -> tx_validate e t = Valid -> SpendOK e t.
+  user_type t -> tx_validate e t = Valid -> SpendOK e t.
 Proof. exact valid_user_spendok. Qed.
 
-(* (FULL) outside the listed class *)
-Theorem C01_valid_tx_spendok_guarded : forall e t,
-  user_type t -> ~ Known_bound_foreign t -> tx_validate e t = Valid -> SpendOK e t.
-Proof. exact valid_user_spendok_guarded. Qed.
-
-(* ... and inside it everything but ownership still holds *)
-Theorem C01_valid_tx_spendok_but_owner : forall e t,
-  user_type t -> tx_validate e t = Valid -> SpendOK_but_owner e t.
-Proof. exact valid_user_but_owner. Qed.
+(* the retention-window clause spelled out.  What remains for Bound slips: they are exempt from
+   this test; of a Bound input with an amount validation establishes that the ledger holds it and
+   that it is named once, of a zero-amount Bound slip nothing at all. *)
+Theorem C01_inputs_inside_window : forall e t,
+  user_type t -> tx_validate e t = Valid ->
+  forall s, In s (t_from t) -> 0 < sl_amount s -> sl_type s <> SBound ->
+  e_latest e + 1 <= sl_bid s + e_gp e.
+Proof.
+  intros e t Hu H s Hin Ha Hb. destruct (valid_user_spendok e t Hu H) as [_ _ _ _ Hw _ _].
+  apply (Hw s Hin). unfold value_input. apply andb_true_iff. split.
+  - now apply N.ltb_lt.
+  - apply negb_true_iff. now apply N.eqb_neq.
+Qed.
 
 (* BlockStake transactions: SpendOK, and the staking rules: only BlockStake / Normal
    outputs, the staked total reaches the requirement (in unbounded arithmetic, also
@@ -51,42 +56,53 @@ Theorem C01_stake_tx_ok : forall e t,
   t_type t = TStake -> tx_validate e t = Valid -> SpendOK e t /\ StakeOK e t.
 Proof. exact valid_stake. Qed.
 
-(* a new NFT: full SpendOK (its single input is a Normal output of the signer), the
-   NFT id written into the third output names exactly the consumed output, and the
-   outputs after the three NFT slips are Normal slips (/repo 5a3c1b6) *)
+(* a new NFT: SpendOK, the NFT id written into the third output names exactly the consumed
+   output, and the outputs after the three NFT slips are Normal slips *)
 Theorem C01_bound_create_ok : forall e t,
   t_type t = TBound -> is_new_nft t = true -> tx_validate e t = Valid ->
   SpendOK e t /\ CreateOK t.
 Proof. exact valid_bound_create. Qed.
 
-(* a transfer of an NFT: inputs spendable, distinct, no inflation counting Bound slips
-   as 0, signed by the key in the FIRST BOUND SLIP (not by the holder of the Normal
-   slip); the Normal slip moved with the NFT is the output created right after the
-   Bound slip in the same transaction (same block_id, tx_ordinal, next slip_index):
-   it cannot be detached or replaced; both Bound slips are re-created with the same
-   key field and amount.  Nothing is established about the owner of the Normal slip
-   or of the further Normal inputs. *)
+(* a transfer of an NFT: SpendOK -- in full, ownership included -- and the shape rules: the Normal
+   slip moved with the NFT is the output created right after the Bound slip in the same
+   transaction (it cannot be detached or replaced), both Bound slips are re-created with the same
+   key field and amount.  The signing key is the owner of that Normal slip, the HOLDER, whenever
+   the slip carries coins: with a deposit an NFT moves only with its holder's signature, and every
+   Normal input of the transfer is the holder's.
+   What remains for NFTs WITHOUT deposit ([0 <? sl_amount f1 = false]): the Normal slip is a
+   zero-amount slip the ledger never holds, so the holder is not verifiable; the signing key is
+   then the key in the first Bound slip, which every transfer copies unchanged -- such an NFT
+   stays under the key that minted it, whoever its Normal slip names.  No coins are involved:
+   every value-carrying input of such a transfer still belongs to the signer. *)
 Theorem C01_bound_send_guarantees : forall e t,
   t_type t = TBound -> is_new_nft t = false -> tx_validate e t = Valid ->
-  SpendOK_but_owner e t /\ SendOK e t.
+  SpendOK e t /\ SendOK e t.
 Proof. exact valid_bound_send. Qed.
 
-(* the pool applies the same gate and admits no producer-only transaction type (nor, since
-   /repo 9879695, a staking transaction spending outputs of another key than the node's) *)
+(* the pool applies the same gate and admits no producer-only transaction type, no issuance
+   once there is a chain (/repo 716c212), no staking transaction spending outputs of another key
+   than the node's (/repo 9879695) *)
 Theorem C01_pool_gate : forall e t, pool_gate e t = true ->
-  t_type t <> TFee /\ t_type t <> TATR /\ t_type t <> TSPV /\ tx_validate e t = Valid.
+  t_type t <> TFee /\ t_type t <> TATR /\ t_type t <> TSPV
+  /\ (t_type t = TIssuance -> e_no_chain e = true)
+  /\ (t_type t = TStake -> forall s, In s (t_from t) -> sl_pk s = e_node e)
+  /\ tx_validate e t = Valid.
 Proof. exact pool_gate_types. Qed.
 
 Corollary C01_pool_user_tx_spendok : forall e t,
-  coin_type t -> pool_gate e t = true -> SpendOK e t.
-Proof. intros e t Hu Hp. apply (valid_user_spendok e); [exact Hu|]. now destruct (pool_gate_types e t Hp) as (_ & _ & _ & H). Qed.
+  user_type t -> pool_gate e t = true -> SpendOK e t.
+Proof.
+  intros e t Hu Hp. apply (valid_user_spendok e); [exact Hu|].
+  now destruct (pool_gate_types e t Hp) as (_ & _ & _ & _ & _ & H).
+Qed.
 
 (* block validation: every transaction of an accepted block validates ... *)
 Theorem C01_block_sweep_valid : forall e txs t,
   sweep e [] txs = true -> In t txs -> tx_validate e t = Valid.
 Proof. intros e. exact (sweep_all_valid e []). Qed.
 
-(* ... and no value input (non-zero, non-Bound) is spent twice inside the block *)
+(* ... and no input with an amount -- Bound slips included since /repo 2a74b4d -- is spent twice
+   inside the block *)
 Theorem C01_block_no_double_spend : forall e txs,
   sweep e [] txs = true -> NoDup (block_keys txs).
 Proof. exact sweep_no_double_spend. Qed.
@@ -100,88 +116,16 @@ Theorem C01_block_stake_tx : forall e id txs,
   forall t, In t txs -> t_type t = TStake -> SpendOK e t /\ StakeOK e t.
 Proof. exact block_stake_tx. Qed.
 
-(* the retention-window clause at full strength, for EVERY accepted user transaction (Bound-typed
-   ones included): each input that carries an amount and is not a Bound slip was created by a
-   block b with b + genesis_period >= latest + 1, i.e. it has not yet reached the block that
-   rebroadcasts or collects it.  What remains for Bound slips: they are exempt from this test
-   (as from the duplicate tests); of a Bound input with an amount validation only establishes
-   that the ledger holds it ([sb_spendable]) -- the ledger drops an NFT triple when the
-   rebroadcast re-issues it, which is property C13's matter -- and of a zero-amount Bound slip
-   nothing at all. *)
-Theorem C01_inputs_inside_window : forall e t,
-  user_type t -> tx_validate e t = Valid ->
-  forall s, In s (t_from t) -> 0 < sl_amount s -> sl_type s <> SBound ->
-  e_latest e + 1 <= sl_bid s + e_gp e.
-Proof.
-  intros e t Hu H s Hin Ha Hb. destruct (valid_user_but_owner e t Hu H) as [_ _ _ Hw _ _].
-  apply (Hw s Hin). unfold value_input. apply andb_true_iff. split.
-  - now apply N.ltb_lt.
-  - apply negb_true_iff. now apply N.eqb_neq.
-Qed.
+(* the signed bytes carry no slip counts, but since /repo 4d27589 the hash the signature is checked
+   against is taken after the outputs are renumbered by position: for transactions as validation
+   sees them, equal signed bytes mean equal inputs and equal outputs -- a signed transaction cannot
+   be re-split *)
+Theorem C01_signed_bytes_delimited : forall t t',
+  outs_numbered t = true -> outs_numbered t' = true -> t_to t <> [] -> t_to t' <> [] ->
+  signed_flat t' = signed_flat t -> signed_content t' = signed_content t.
+Proof. exact signed_bytes_delimited. Qed.
 
-(* the edge: tip 9, genesis period 4; an output of block 6 can be spent in block 10, one of
-   block 5 (still in the ledger: block 10 is the one that rebroadcasts it) cannot *)
-Example C01_window_edge :
-  let e := mkEnv 0 true 9 4 1 in
-  let tx b := mkTx TNormal [nslip 5 700 11 b 0 0] [oslip 5 700 SNormal] true true true in
-  tx_validate e (tx 6) = Valid /\ tx_validate e (tx 5) = Invalid /\ tx_validate e (tx 1) = Invalid
-  /\ tx_validate e (mkTx TBound [bslip 5 1 21 true 2 3 0; nslip 5 300 22 2 3 1; bslip 77 0 0 false 2 3 2]
-                     [oslip 5 1 SBound; oslip 5 300 SNormal; oslip 77 0 SBound] true true true) = Invalid
-  (* a peer-chosen block_id near 2^64: the sum saturates (/repo 8712765); the ledger look-up refuses it *)
-  /\ tx_validate e (mkTx TNormal [mkSlip 5 700 SNormal 11 false 18446744073709551615 0 0 false 700 0 0 0]
-                     [oslip 5 700 SNormal] true true true) = Invalid.
-Proof. repeat split; vm_compute; reflexivity. Qed.
-
-(* ------------------------------------------------------------------ refuted *)
-
-(* the witnesses W_foreign, W_reclaim, W_fabricated and the predicate [steals] are defined at the
-   end of proofs/TxValidProofs.v, with the listed finding each of them reproduces *)
-Example C01_bound_foreign_input_refuted : steals W_foreign.
-Proof. repeat split; try (vm_compute; reflexivity).
-  exists (nslip 6 2000 23 1 8 0). repeat split; try (vm_compute; reflexivity).
-  - cbn. tauto.
-  - vm_compute. discriminate. Qed.
-Example C01_bound_creator_reclaims_refuted : steals W_reclaim.
-Proof. repeat split; try (vm_compute; reflexivity).
-  exists (nslip 6 400 22 2 3 1). repeat split; try (vm_compute; reflexivity).
-  - cbn. tauto.
-  - vm_compute. discriminate. Qed.
-Example C01_bound_fabricated_triple_refuted : steals W_fabricated.
-Proof. repeat split; try (vm_compute; reflexivity).
-  exists (nslip 6 2850 32 2 7 1). repeat split; try (vm_compute; reflexivity).
-  - cbn. tauto.
-  - vm_compute. discriminate. Qed.
-
-(* hence (FULL) fails *)
-Theorem C01_user_tx_spendok_refuted : exists e t,
-  user_type t /\ tx_validate e t = Valid /\ ~ SpendOK e t.
-Proof.
-  exists env0, W_foreign. split; [|split].
-  - repeat split; vm_compute; discriminate.
-  - vm_compute. reflexivity.
-  - intros [_ _ _ Hown _ _ _].
-    specialize (Hown (nslip 6 2000 23 1 8 0) ltac:(cbn; tauto) ltac:(vm_compute; reflexivity)).
-    vm_compute in Hown. discriminate.
-Qed.
-(* the witnesses are in the listed class *)
-Example C01_witnesses_known :
-  Known_bound_foreign W_foreign /\ Known_bound_foreign W_reclaim /\ Known_bound_foreign W_fabricated.
-Proof. repeat split; vm_compute; reflexivity. Qed.
-
-(* listed finding bound-double-spend-in-block: the duplicate tests (in the transaction
-   and in the sweep) skip Bound slips, so an NFT without deposit can be transferred
-   twice in one block -- the same unspent Bound output (amount 1) consumed by two
-   accepted transactions, each re-creating the NFT for a different holder *)
-Example C01_bound_double_spend_refuted : exists t1 t2 s,
-  sweep env0 [] [t1; t2] = true /\ In s (t_from t1) /\ In s (t_from t2)
-  /\ 0 < sl_amount s /\ sl_spendable s = true /\ t_to t1 <> t_to t2.
-Proof.
-  set (f := [bslip 5 1 21 true 2 3 0; mkSlip 5 0 SNormal 22 false 2 3 1 false 0 0 0 0; bslip 77 0 0 false 2 3 2]).
-  exists (mkTx TBound f [oslip 5 1 SBound; oslip 5 0 SNormal; oslip 77 0 SBound] true true true),
-         (mkTx TBound f [oslip 5 1 SBound; oslip 6 0 SNormal; oslip 77 0 SBound] true true true),
-         (bslip 5 1 21 true 2 3 0).
-  repeat split; try (vm_compute; reflexivity); try (cbn; tauto). vm_compute. discriminate.
-Qed.
+(* ------------------------------------------------------------------ still refuted *)
 
 (* listed finding replayed-signature-other-output (input-location-unsigned under C06):
    the signed bytes contain public key, amount, slip_index and type of every input but
@@ -192,7 +136,7 @@ Theorem C01_signature_does_not_bind_inputs : forall e t t',
   t_type t <> TStake -> t_type t <> TBound ->
   signed_content t' = signed_content t ->
   t_sig_ok t' = t_sig_ok t -> t_has_hash t' = t_has_hash t -> t_path_ok t' = t_path_ok t ->
-  nodupb (value_keys t') = true ->
+  nodupb (dup_keys t') = true ->
   forallb slip_validate (t_from t') = true ->
   age_check (e_gp e) (e_next e) (t_from t') = true ->
   tx_validate e t = Valid -> tx_validate e t' = Valid.
@@ -204,37 +148,50 @@ Example C01_replay_refuted : exists t t',
   /\ value_keys t = [41] /\ value_keys t' = [42]
   /\ SpendOK env0 t'.
 Proof.
-  exists (mkTx TNormal [nslip 6 3000 41 1 12 0] [oslip 5 150 SNormal; oslip 6 2850 SNormal] true true true),
-         (mkTx TNormal [nslip 6 3000 42 1 13 0] [oslip 5 150 SNormal; oslip 6 2850 SNormal] true true true).
+  exists (mkTx TNormal [nslip 6 3000 41 1 12 0] [oslip_at 0 5 150 SNormal; oslip_at 1 6 2850 SNormal] true true true),
+         (mkTx TNormal [nslip 6 3000 42 1 13 0] [oslip_at 0 5 150 SNormal; oslip_at 1 6 2850 SNormal] true true true).
   repeat (split; [vm_compute; reflexivity|]).
   apply (valid_user_spendok env0); [repeat split; vm_compute; discriminate|vm_compute; reflexivity].
 Qed.
 
-(* listed finding signed-bytes-not-delimited: key 6 signs from=[a] to=[change 2000 to itself (index 0),
-   150 to key 5 (index 1)]; the same signed bytes read as from=[a; b'] to=[150 to key 5 (still index 1)]
-   with b' another unspent 2000 of key 6 at slip index 0: valid, all inputs owned by the signer
-   (SpendOK holds formally), and 4000 instead of nothing go to the producer as fee *)
-Example C01_resplit_refuted : exists t t',
-  signed_flat t' = signed_flat t /\ t_sig_ok t' = t_sig_ok t
-  /\ tx_validate env0 t = Valid /\ tx_validate env0 t' = Valid /\ pool_gate env0 t' = true
-  /\ value_keys t = [41] /\ value_keys t' = [41; 42]
-  /\ total_fees t = 0 /\ total_fees t' = 4000.
-Proof.
-  exists (mkTx TNormal [nslip 6 2150 41 1 12 0]
-            [mkSlip 6 2000 SNormal 0 false 0 0 0 false 2000 0 0 0; mkSlip 5 150 SNormal 0 false 0 0 1 false 150 0 0 0] true true true),
-         (mkTx TNormal [nslip 6 2150 41 1 12 0; nslip 6 2000 42 1 13 0]
-            [mkSlip 5 150 SNormal 0 false 0 0 1 false 150 0 0 0] true true true).
-  repeat split; vm_compute; reflexivity.
-Qed.
+(* ------------------------------------------------------------------ regression examples
+   (the witnesses that refuted the property before the repairs; now refused) *)
 
-(* listed finding (type-issuance-pool): an issuance-type transaction without inputs,
-   minting to anyone, passes the pool's gate on a running chain *)
-Example C01_issuance_pool_refuted : exists t,
-  t_type t = TIssuance /\ t_from t = [] /\ pool_gate env0 t = true /\ 0 < nsum (map counted (t_to t)).
-Proof.
-  exists (mkTx TIssuance [] [oslip 7 123456 SNormal] false true true).
-  repeat split; vm_compute; reflexivity.
-Qed.
+(* c1271fb: a foreign Normal input inside a transfer of one's own NFT *)
+Example C01_bound_foreign_input_regression : refused W_foreign.
+Proof. repeat split; vm_compute; reflexivity. Qed.
+(* c1271fb: the creator takes back an NFT (and the holder's deposit): his own signature no longer
+   counts; the same transfer signed by the holder (key 6) is the holder's legitimate transfer *)
+Example C01_bound_creator_reclaims_regression :
+  refused (W_reclaim false) /\ tx_validate env0 (W_reclaim true) = Valid /\ signer (W_reclaim true) = 6.
+Proof. repeat split; vm_compute; reflexivity. Qed.
+(* c1271fb: invented zero-amount Bound slips around an output of key 6: key 6 would have to sign *)
+Example C01_bound_fabricated_triple_regression :
+  refused (W_fabricated false) /\ signer (W_fabricated false) = 6.
+Proof. repeat split; vm_compute; reflexivity. Qed.
+(* 2a74b4d: an NFT without deposit sent twice in one block: the Bound slip (amount 1) is now seen
+   by the sweep; each transfer alone is fine *)
+Example C01_bound_double_spend_regression :
+  let f := [bslip 5 1 21 true 2 3 0; mkSlip 5 0 SNormal 22 false 2 3 1 false 0 0 0 0; bslip 77 0 0 false 2 3 2] in
+  let t1 := mkTx TBound f [oslip 5 1 SBound; oslip 5 0 SNormal; oslip 77 0 SBound] true true true in
+  let t2 := mkTx TBound f [oslip 5 1 SBound; oslip 6 0 SNormal; oslip 77 0 SBound] true true true in
+  sweep env0 [] [t1] = true /\ sweep env0 [] [t2] = true /\ sweep env0 [] [t1; t2] = false
+  /\ tx_validate env0 (mkTx TBound (bslip 5 1 21 true 2 3 0 :: f) [oslip 5 1 SBound; oslip 5 0 SNormal; oslip 77 0 SBound] true true true) = Invalid.
+Proof. repeat split; vm_compute; reflexivity. Qed.
+(* 716c212: an issuance-type transaction minting to anyone is pooled only while there is no chain *)
+Example C01_issuance_pool_regression :
+  let t := mkTx TIssuance [] [oslip 7 123456 SNormal] false true true in
+  pool_gate env0 t = false /\ pool_gate (mkEnv 0 true 0 100 1 true) t = true.
+Proof. split; vm_compute; reflexivity. Qed.
+(* 4d27589: key 6 signs from=[a] to=[change 2000 to itself (index 0), 150 to key 5 (index 1)]; the
+   re-split from=[a; b'] to=[150 to key 5] reaches validation with its output renumbered to index 0:
+   different signed bytes, so the old signature does not verify ([t_sig_ok] = false) *)
+Example C01_resplit_regression :
+  let t  := mkTx TNormal [nslip 6 2150 41 1 12 0] [oslip_at 0 6 2000 SNormal; oslip_at 1 5 150 SNormal] true true true in
+  let t' := mkTx TNormal [nslip 6 2150 41 1 12 0; nslip 6 2000 42 1 13 0] [oslip_at 0 5 150 SNormal] false true true in
+  outs_numbered t = true /\ outs_numbered t' = true /\ signed_flat t' <> signed_flat t
+  /\ tx_validate env0 t = Valid /\ tx_validate env0 t' = Invalid.
+Proof. repeat split; try (vm_compute; reflexivity). vm_compute. discriminate. Qed.
 
 (* ------------------------------------------------------------------ non-vacuity *)
 
@@ -242,8 +199,21 @@ Qed.
 Example C01_example :
   let t := mkTx TNormal [nslip 5 700 11 1 0 0; nslip 5 300 12 1 1 0]
                         [oslip 6 900 SNormal; oslip 5 100 SNormal] true true true in
-  coin_type t /\ tx_validate env0 t = Valid /\ sweep env0 [] [t] = true.
+  user_type t /\ tx_validate env0 t = Valid /\ sweep env0 [] [t] = true.
 Proof. repeat split; try (vm_compute; congruence); vm_compute; reflexivity. Qed.
+
+(* the edge of the window: tip 9, genesis period 4; an output of block 6 can be spent in block 10,
+   one of block 5 (still in the ledger: block 10 is the one that rebroadcasts it) cannot *)
+Example C01_window_edge :
+  let e := mkEnv 0 true 9 4 1 false in
+  let tx b := mkTx TNormal [nslip 5 700 11 b 0 0] [oslip 5 700 SNormal] true true true in
+  tx_validate e (tx 6) = Valid /\ tx_validate e (tx 5) = Invalid /\ tx_validate e (tx 1) = Invalid
+  /\ tx_validate e (mkTx TBound [bslip 5 1 21 true 2 3 0; nslip 5 300 22 2 3 1; bslip 77 0 0 false 2 3 2]
+                     [oslip 5 1 SBound; oslip 5 300 SNormal; oslip 77 0 SBound] true true true) = Invalid
+  (* a peer-chosen block_id near 2^64: the sum saturates; the ledger look-up refuses it *)
+  /\ tx_validate e (mkTx TNormal [mkSlip 5 700 SNormal 11 false 18446744073709551615 0 0 false 700 0 0 0]
+                     [oslip 5 700 SNormal] true true true) = Invalid.
+Proof. repeat split; vm_compute; reflexivity. Qed.
 
 (* the ownership rule covers every slip type except Bound: a second input of another key that is
    an ATR (1), MinerOutput (5), RouterOutput (7) or BlockStake (8) slip is refused like a Normal one,
@@ -263,29 +233,34 @@ Proof. vm_compute. reflexivity. Qed.
 Example C01_stake_example :
   let t := mkTx TStake [nslip 5 700 11 1 0 0; mkSlip 5 300 SStake 12 true 3 1 0 true 300 0 0 0]
                        [oslip 5 600 SStake; oslip 5 400 SNormal] true true true in
-  tx_validate (mkEnv 600 true 3 100 1) t = Valid /\ tx_validate (mkEnv 601 true 3 100 1) t = Invalid.
+  tx_validate (mkEnv 600 true 3 100 1 false) t = Valid /\ tx_validate (mkEnv 601 true 3 100 1 false) t = Invalid.
 Proof. split; vm_compute; reflexivity. Qed.
 (* ... rejected when an input is locked, when the signer does not own an input, unsigned *)
 Example C01_stake_rejections :
   let outs := [oslip 5 600 SStake; oslip 5 400 SNormal] in
-  tx_validate (mkEnv 600 true 3 100 1)
+  let e := mkEnv 600 true 3 100 1 false in
+  tx_validate e
     (mkTx TStake [nslip 5 700 11 1 0 0; mkSlip 5 300 SStake 12 true 3 1 0 false 300 0 0 0] outs true true true) = Invalid
-  /\ tx_validate (mkEnv 600 true 3 100 1) (mkTx TStake [nslip 5 700 11 1 0 0; nslip 6 300 12 1 1 0] outs true true true) = Invalid
-  /\ tx_validate (mkEnv 600 true 3 100 1) (mkTx TStake [nslip 5 700 11 1 0 0; nslip 5 300 12 1 1 0] outs false true true) = Invalid
-  /\ tx_validate (mkEnv 0 true 3 100 1) (mkTx TStake [] [oslip 5 600 SStake] true true true) = Invalid.
+  /\ tx_validate e (mkTx TStake [nslip 5 700 11 1 0 0; nslip 6 300 12 1 1 0] outs true true true) = Invalid
+  /\ tx_validate e (mkTx TStake [nslip 5 700 11 1 0 0; nslip 5 300 12 1 1 0] outs false true true) = Invalid
+  /\ tx_validate env0 (mkTx TStake [] [oslip 5 600 SStake] true true true) = Invalid.
 Proof. repeat split; vm_compute; reflexivity. Qed.
 
-(* a new NFT minted from output (1, 4, 0), and its transfer by the creator *)
+(* a new NFT minted from output (1, 4, 0); its transfer by the holder (with deposit: the holder,
+   key 6, signs); a transfer of an NFT without deposit (the key of the first Bound slip signs) *)
 Example C01_bound_examples :
   let c := mkTx TBound [nslip 5 1000 11 1 4 0]
              [oslip 5 1 SBound; oslip 6 400 SNormal; uslip 77 1 4 0; oslip 5 600 SNormal] true true true in
-  let s := mkTx TBound [bslip 5 1 21 true 2 3 0; nslip 5 400 22 2 3 1; bslip 77 0 0 false 2 3 2]
-             [oslip 5 1 SBound; oslip 6 400 SNormal; oslip 77 0 SBound] true true true in
-  tx_validate env0 c = Valid /\ is_new_nft c = true /\
-  tx_validate env0 s = Valid /\ is_new_nft s = false /\ ~ Known_bound_foreign s.
-Proof. repeat split; try (vm_compute; reflexivity). intros [_ H]. vm_compute in H. discriminate. Qed.
+  let s := mkTx TBound [bslip 5 1 21 true 2 3 0; nslip 6 400 22 2 3 1; bslip 77 0 0 false 2 3 2]
+             [oslip 5 1 SBound; oslip 7 400 SNormal; oslip 77 0 SBound] true true true in
+  let z := mkTx TBound [bslip 5 1 21 true 2 3 0; mkSlip 6 0 SNormal 22 false 2 3 1 false 0 0 0 0; bslip 77 0 0 false 2 3 2]
+             [oslip 5 1 SBound; oslip 7 0 SNormal; oslip 77 0 SBound] true true true in
+  tx_validate env0 c = Valid /\ is_new_nft c = true /\ signer c = 5 /\
+  tx_validate env0 s = Valid /\ is_new_nft s = false /\ signer s = 6 /\
+  tx_validate env0 z = Valid /\ signer z = 5.
+Proof. repeat split; vm_compute; reflexivity. Qed.
 (* rules of the NFT branch at work: wrong id, detached Normal slip, modified amount,
-   Bound slip smuggled into a Normal transaction *)
+   Bound slip smuggled into a Normal transaction, extra Bound output of a new NFT *)
 Example C01_bound_rejections :
   tx_validate env0 (mkTx TBound [nslip 5 1000 11 1 4 0]
      [oslip 5 1 SBound; oslip 6 400 SNormal; uslip 77 1 5 0; oslip 5 600 SNormal] true true true) = Invalid
@@ -294,12 +269,12 @@ Example C01_bound_rejections :
   /\ tx_validate env0 (mkTx TBound [bslip 5 1 21 true 2 3 0; nslip 5 400 22 2 3 1; bslip 77 0 0 false 2 3 2]
      [oslip 5 2 SBound; oslip 6 400 SNormal; oslip 77 0 SBound] true true true) = Invalid
   /\ tx_validate env0 (mkTx TNormal [nslip 5 1000 11 1 4 0]
-     [oslip 5 1000 SNormal; oslip 5 99 SBound] true true true) = Invalid.
+     [oslip 5 1000 SNormal; oslip 5 99 SBound] true true true) = Invalid
+  /\ tx_validate env0 (mkTx TBound [nslip 5 1000 11 1 4 0]
+     [oslip 5 1 SBound; oslip 6 400 SNormal; uslip 77 1 4 0; oslip 5 1000000 SBound] true true true) = Invalid.
 Proof. repeat split; vm_compute; reflexivity. Qed.
 
 Print Assumptions C01_valid_user_tx_spendok.
-Print Assumptions C01_valid_tx_spendok_guarded.
-Print Assumptions C01_valid_tx_spendok_but_owner.
 Print Assumptions C01_inputs_inside_window.
 Print Assumptions C01_stake_tx_ok.
 Print Assumptions C01_bound_create_ok.
@@ -309,5 +284,5 @@ Print Assumptions C01_pool_user_tx_spendok.
 Print Assumptions C01_block_sweep_valid.
 Print Assumptions C01_block_no_double_spend.
 Print Assumptions C01_block_stake_tx.
-Print Assumptions C01_user_tx_spendok_refuted.
+Print Assumptions C01_signed_bytes_delimited.
 Print Assumptions C01_signature_does_not_bind_inputs.
